@@ -739,7 +739,11 @@ def load(I, arr, idx, node, env):
                     val = arr.meta["gen"](it)
                 elif isinstance(val, Expr) and not (dim_is_one(arr.shape[0]) or not any(a.kind == "fn" and a.name in ("idx", "elem", "fftidx") for a in val.atoms())):
                     ats = val.atoms()
-                    if any(a.kind == "fn" and a.name in ("idx", "fftidx") for a in ats):
+                    pos_atoms = [a for a in ats if a.kind == "fn" and a.name in ("idx", "fftidx")]
+                    if len(pos_atoms) == 1 and pos_atoms[0].name == "idx" and isinstance(pos_atoms[0].args[0], Expr) and dim_eq(pos_atoms[0].args[0], arr.shape[0]) and not any(
+                            a.kind == "fn" and a.name in ("gather", "cumsum", "permidx", "scatter", "roll", "upd") for a in ats):
+                        val = val.subs({pos_atoms[0]: it})  # the entry at that position: the position index takes this value
+                    elif pos_atoms:
                         val = alg.fn("pick", val, it)
                     else:
                         # element i of a pointwise function of caller arrays: elem(X) -> at(X, i)
@@ -1336,6 +1340,8 @@ def method(I, f, args, kwargs, node):
             return b
         return Unknown("scalar method %s" % name)
     if isinstance(b, Tup):
+        if name in ("append", "insert", "extend", "remove", "pop", "clear", "update", "setdefault", "sort", "reverse", "popitem"):
+            I.note_table_write(b, node, "%s()" % name)
         if name == "append":
             if I.loop_stack and b.kind == "list":
                 L = I.loop_stack[-1]
@@ -1399,6 +1405,37 @@ def method(I, f, args, kwargs, node):
                     return v
             b.items.append((args[0], args[1] if len(args) > 1 else None))
             return b.items[-1][1]
+        plain = b.kind in ("list", "tuple") and not any(isinstance(x, I_.GenList) for x in b.items)
+        if name == "index" and plain and args:
+            for k, x in enumerate(b.items):
+                if I_.key_equal(x, args[0]):
+                    return alg.const(k)
+            raise I_.raise_exc("ValueError", node, "%r is not in list" % (args[0],))
+        if name == "count" and plain and args:
+            return alg.const(sum(1 for x in b.items if I_.key_equal(x, args[0])))
+        if name == "insert" and b.kind == "list" and plain and len(args) == 2:
+            k = const_int(args[0]) if isinstance(args[0], Expr) else None
+            if k is not None:
+                b.items.insert(k, args[1])  # in place: every alias of the list sees it
+                return None
+        if name == "extend" and b.kind == "list" and plain and args and isinstance(args[0], Tup) and args[0].kind != "dict" and not any(isinstance(x, I_.GenList) for x in args[0].items):
+            b.items.extend(args[0].items)
+            return None
+        if name == "remove" and b.kind == "list" and plain and args:
+            for k, x in enumerate(b.items):
+                if I_.key_equal(x, args[0]):
+                    del b.items[k]
+                    return None
+            raise I_.raise_exc("ValueError", node, "list.remove(x): x not in list")
+        if name == "copy" and b.kind in ("list", "dict"):
+            return Tup(list(b.items), b.kind)
+        if name == "reverse" and b.kind == "list" and plain:
+            b.items.reverse()
+            return None
+        if name in ("insert", "extend", "remove", "sort", "reverse", "__setitem__", "__delitem__") and b.kind in ("list", "dict"):
+            # a mutation that is not followed: what the container holds afterwards is not known
+            b.items.append(Unknown("contents after %s() with arguments that are not modelled" % name) if b.kind == "list" else (Unknown("key"), Unknown("value")))
+            return None
         return Unknown("tuple method %s" % name)
     if isinstance(b, SetV):
         if name == "pop":
